@@ -1,5 +1,6 @@
 //! Which stages make up each property's check, and how many cases each tier runs.
 
+use super::more::*;
 use super::solve::*;
 use crate::gen::Params;
 use crate::runner::{Property, Tier};
@@ -61,7 +62,25 @@ pub fn stages(id: &str) -> Vec<Stage> {
             st(C04 { params: Params::default().hint_heavy().with_soft(4, 250), stage: "debug" }, 20_000, 800_000, Debug),
         ],
         "C05" => vec![
-            st(C05 { params: Params::conflict_heavy().with_soft(2, 100), stage: "main" }, 20_000, 800_000, Release),
+            st(C05 { params: Params::conflict_heavy().with_soft(2, 100), stage: "main" }, 60_000, 1_500_000, Release),
+        ],
+        "C06" => vec![
+            st(C06 { params: Params::conflict_heavy(), stage: "main", repeats: 4 }, 6_000, 200_000, Release),
+        ],
+        "C07" => vec![
+            st(C07 { params: Params::default(), stage: "main" }, 20_000, 800_000, Release),
+            st(C07 { params: Params { max_pkgs: 20, min_pkgs: 8, ..Params::default() }, stage: "large" }, 5_000, 200_000, Release),
+        ],
+        "C08" => vec![
+            st(C08 { params: Params::conflict_heavy(), stage: "main" }, 20_000, 800_000, Release),
+        ],
+        "C09" => vec![
+            st(C09 { params: Params::conflict_heavy().with_soft(2, 100), stage: "general", conflict_free: false }, 15_000, 600_000, Release),
+            st(C09 { params: Params::default(), stage: "conflict-free", conflict_free: true }, 15_000, 600_000, Release),
+        ],
+        "C14" => vec![
+            st(C14 { params: Params::conflict_heavy().with_soft(5, 200), stage: "general", conflict_free: false }, 15_000, 600_000, Release),
+            st(C14 { params: Params::default(), stage: "conflict-free", conflict_free: true }, 15_000, 600_000, Release),
         ],
         _ => vec![],
     }
